@@ -146,6 +146,7 @@ pub struct World {
     pub poll_cost_ns: u64,
     pub sleeps: u64,
     pub clock_reads: u64,
+    pub stat_calls: u64,
 }
 
 impl World {
@@ -181,6 +182,7 @@ impl World {
             poll_cost_ns: 0,
             sleeps: 0,
             clock_reads: 0,
+            stat_calls: 0,
         }
     }
 
@@ -685,4 +687,110 @@ pub unsafe extern "C" fn clock_nanosleep(clock: libc::clockid_t, flags: libc::c_
     // clock_nanosleep returns the error number instead of setting errno
     let r = libc::syscall(libc::SYS_clock_nanosleep, clock, flags, req, rem);
     if r < 0 { *libc::__errno_location() } else { 0 }
+}
+
+// ---------------------------------------------------------------------------------------------------
+// file metadata: size = current length, regular file, modification time derived from the content (a
+// changed file has another mtime, an unchanged one the same), so that code which keys a cache on
+// (path, length, mtime) behaves under simulation as it would on a real file system.
+
+fn virtual_mtime(data: &[u8]) -> i64 {
+    let mut h: u64 = 0xcbf29ce484222325;
+    for b in data {
+        h ^= *b as u64;
+        h = h.wrapping_mul(0x100000001b3);
+    }
+    1_700_000_000 + (h % 30_000_000) as i64
+}
+
+unsafe fn fill_statx(buf: *mut libc::statx, data: &[u8], ino: u64) {
+    std::ptr::write_bytes(buf as *mut u8, 0, std::mem::size_of::<libc::statx>());
+    (*buf).stx_mask = libc::STATX_BASIC_STATS;
+    (*buf).stx_blksize = 4096;
+    (*buf).stx_nlink = 1;
+    (*buf).stx_mode = (libc::S_IFREG | 0o644) as u16;
+    (*buf).stx_ino = ino;
+    (*buf).stx_size = data.len() as u64;
+    (*buf).stx_blocks = (data.len() as u64 + 511) / 512;
+    let m = virtual_mtime(data);
+    (*buf).stx_mtime.tv_sec = m;
+    (*buf).stx_ctime.tv_sec = m;
+    (*buf).stx_atime.tv_sec = m;
+}
+
+#[no_mangle]
+pub unsafe extern "C" fn statx(dirfd: libc::c_int, path: *const libc::c_char, flags: libc::c_int, mask: libc::c_uint, buf: *mut libc::statx) -> libc::c_int {
+    if !buf.is_null() {
+        let empty_path = path.is_null() || *path == 0;
+        let sim_path = !path.is_null() && !empty_path && cstr_is_simfs(path);
+        if empty_path || sim_path {
+            if let Some(w) = enter() {
+                let mut handled = None;
+                if empty_path {
+                    if let Some(slot) = w.fd_slot(dirfd) {
+                        let file = w.fds[slot].file;
+                        fill_statx(buf, &w.files[file].data, 1000 + file as u64);
+                        w.stat_calls += 1;
+                        handled = Some(0);
+                    }
+                } else {
+                    let p = std::ffi::CStr::from_ptr(path).to_string_lossy().into_owned();
+                    match w.files.iter().position(|f| f.path == p) {
+                        Some(file) => {
+                            fill_statx(buf, &w.files[file].data, 1000 + file as u64);
+                            w.stat_calls += 1;
+                            handled = Some(0);
+                        }
+                        None => {
+                            *libc::__errno_location() = libc::ENOENT;
+                            handled = Some(-1);
+                        }
+                    }
+                }
+                exit();
+                if let Some(r) = handled {
+                    return r;
+                }
+            }
+        }
+    }
+    libc::syscall(libc::SYS_statx, dirfd, path, flags, mask, buf) as libc::c_int
+}
+
+#[no_mangle]
+pub unsafe extern "C" fn realpath(path: *const libc::c_char, resolved: *mut libc::c_char) -> *mut libc::c_char {
+    if !path.is_null() && cstr_is_simfs(path) {
+        if let Some(w) = enter() {
+            let p = std::ffi::CStr::from_ptr(path).to_bytes().to_vec();
+            let exists = w.files.iter().any(|f| f.path.as_bytes() == &p[..]);
+            exit();
+            if !exists {
+                *libc::__errno_location() = libc::ENOENT;
+                return std::ptr::null_mut();
+            }
+            let out = if resolved.is_null() { libc::malloc(p.len() + 1) as *mut libc::c_char } else { resolved };
+            if out.is_null() {
+                return out;
+            }
+            std::ptr::copy_nonoverlapping(p.as_ptr() as *const libc::c_char, out, p.len());
+            *out.add(p.len()) = 0;
+            return out;
+        }
+        *libc::__errno_location() = libc::ENOENT;
+        return std::ptr::null_mut();
+    }
+    // everything else: the C library's own implementation
+    type RealpathFn = unsafe extern "C" fn(*const libc::c_char, *mut libc::c_char) -> *mut libc::c_char;
+    static REAL: std::sync::atomic::AtomicUsize = std::sync::atomic::AtomicUsize::new(0);
+    let mut f = REAL.load(Ordering::Relaxed);
+    if f == 0 {
+        f = libc::dlsym(libc::RTLD_NEXT, b"realpath\0".as_ptr() as *const libc::c_char) as usize;
+        REAL.store(f, Ordering::Relaxed);
+    }
+    if f == 0 {
+        *libc::__errno_location() = libc::ENOSYS;
+        return std::ptr::null_mut();
+    }
+    let func: RealpathFn = std::mem::transmute(f);
+    func(path, resolved)
 }
